@@ -2505,6 +2505,12 @@ pub const DEFECT_KINDS: &[&str] = &[
     "not-imported:impl-type",
     "not-imported:trait-call",
     "not-imported:inherent-call",
+    // the package imports q, but not in the file that refers to q
+    "not-imported-in-file:call",
+    "not-imported-in-file:trait-call",
+    "not-imported-in-file:inherent-call",
+    "not-imported-in-file:ctor",
+    "not-imported-in-file:struct-lit",
     "orphan-impl",
     "orphan-impl-builtin-type",
     "duplicate-impl-same-package",
@@ -2878,6 +2884,49 @@ pub fn inject(proj: &Project, which: usize, d: &mut Dec) -> Option<Injected> {
                     control,
                     true,
                     format!("{} refers to {} ({rel}{})", proj.pkgs[p].name, proj.pkgs[q].name, if elsewhere { ", several files" } else { "" }),
+                );
+            }
+            None
+        }
+        k if k.starts_with("not-imported-in-file:") => {
+            let pos = &k["not-imported-in-file:".len()..];
+            // (p, q): p imports q and has a second file; that file gets the reference but no `import q`
+            let mut pairs = vec![];
+            for &p in &loaded {
+                if proj.pkgs[p].nfiles < 2 {
+                    continue;
+                }
+                for &q in &proj.pkgs[p].imports {
+                    if q != p && q != 0 && loaded.contains(&q) {
+                        pairs.push((p, q));
+                    }
+                }
+            }
+            if pairs.is_empty() {
+                return None;
+            }
+            let start = d.below(pairs.len());
+            for i in 0..pairs.len() {
+                let (p, q) = pairs[(start + i) % pairs.len()];
+                let Some(text) = proj.foreign_ref_text(p, q, pos, d) else { continue };
+                let f = 1 + d.below(proj.pkgs[p].nfiles - 1);
+                let with = proj.add_raw(p, f, text, vec![]);
+                let mut tw = RenderTweaks::default();
+                tw.drop_imports.push((p, f, q));
+                let files = with.render_with(&plain, &tw);
+                // the control: the same reference in a file that does import q
+                let mut c = with.clone();
+                if let Some(Item { kind: ItemKind::Raw { uses, .. }, .. }) = c.pkgs[p].items.last_mut() {
+                    uses.push(q);
+                }
+                let control = Some(c.render());
+                return mk(
+                    k,
+                    p,
+                    files,
+                    control,
+                    true,
+                    format!("file {f} of {} refers to {} without importing it (another file of the package does)", proj.pkgs[p].name, proj.pkgs[q].name),
                 );
             }
             None
